@@ -12,7 +12,7 @@ REAL = ['onl.sim.resources.resource.*', 'onl.sim.resources.base.*', 'onl.sim ker
 STUBS = ['user and interrupter process bodies (harness)']
 ASSUMPTIONS = ['each process holds or awaits at most one request at a time and always releases/cancels before it goes on',
                'grants are observed as trigger records of request events; evictions as users vanishing without a release']
-PROBES = ['cancel_of_queue_head', 'equal_key_preemption_attempt', 'victim_interrupted_before_it_saw_grant',
+PROBES = ['user_process_ended_holding_the_slot', 'cancel_of_queue_head', 'equal_key_preemption_attempt', 'victim_interrupted_before_it_saw_grant',
           'release_and_request_same_instant', 'preemption', 'double_release', 'foreign_release', 'with_exit',
           'interrupt_while_queued', 'interrupt_while_holding', 'boundary_with_queue']
 
@@ -37,6 +37,7 @@ def check(w):
     queued_nontrivial = False
     last_release_now = None
     intr_seen = {}    # pid -> list of S intr records
+    abandoned = set()   # rids whose process ended while holding the slot
     full_grants = []
 
     def rank(rid):
@@ -126,6 +127,9 @@ def check(w):
                 gone[rid] = g
         elif tag == 'S':
             _, g, now, st, pid, opi, rid, what = r[:8]
+            if what == 'abandoned':
+                abandoned.add(rid)
+                stats['user_process_ended_holding_the_slot'] = 1
             if what == 'intr':
                 intr_seen.setdefault(pid, []).append(r)
                 if r[9] == 'wait':
@@ -169,7 +173,7 @@ def check(w):
         got = [x for x in intr_seen.get(vpid, []) if x[1] > ev['Gq'] and isinstance(x[8], tuple) and x[8][0] == 'Preempted']
         want = ('Preempted', created[pre]['pid'], granted[vic][1], True)
         if not got:
-            if w.quiescent:
+            if w.quiescent and vic not in abandoned:
                 viol.append(('C06.5', 'evicted process %s never received Interrupt(Preempted)' % vpid))
         else:
             if got[0][8] != want:
